@@ -273,12 +273,13 @@ Proof.
 Qed.
 
 Lemma doc_paste_chars_emacs t c data n :
-  0 <= c <= len t -> ctype data = CHARACTERS ->
+  0 <= c <= len t -> ctype data = CHARACTERS -> 1 <= n ->
   doc_paste (mkdoc t c) data EMACS n =
   Some (firstn (Z.to_nat c) t ++ str_mul (ctext data) n ++ skipn (Z.to_nat c) t,
         c + len (ctext data) * n).
 Proof.
-  intros Hc Hty. unfold doc_paste. rewrite Hty.
+  intros Hc Hty Hn. unfold doc_paste.
+  destruct (n <? 1) eqn:En; [lia|]. rewrite Hty.
   change (CHARACTERS =? CHARACTERS) with true. cbn [dtext dcur].
   change (EMACS =? VI_BEFORE) with false. change (EMACS =? VI_AFTER) with false.
   unfold text_before_cursor, text_after_cursor; cbn [dtext dcur].
